@@ -147,6 +147,21 @@ impl Profile {
                 ops_per_txn: 5,
                 ..base
             },
+            "fault" => Profile {
+                names: vec!["a", "b"],
+                multimaps: true,
+                w_catalog: 6,
+                w_savepoint: 8,
+                w_reader: 8,
+                w_iter: 2,
+                w_nondurable: 30,
+                w_abort: 10,
+                w_reopen: 0,
+                w_compact: 1,
+                w_integrity: 1,
+                ops_per_txn: 8,
+                ..base
+            },
             "pages" => Profile {
                 names: vec!["a", "b", "c"],
                 multimaps: true,
@@ -690,7 +705,7 @@ impl Gen {
                     let h = ev["h"].as_str().unwrap();
                     self.readers.retain(|(x, _)| x != h);
                 }
-                "hold" => self.its.push(ev["it"].as_str().unwrap().to_string()),
+                "hold" if okr => self.its.push(ev["it"].as_str().unwrap().to_string()),
                 "itdrop" => {
                     let it = ev["it"].as_str().unwrap();
                     self.its.retain(|x| x != it);
